@@ -221,6 +221,10 @@ PERSIST_ASSUME = TRUSTED + [
 
 MC_PS_CFG = ("SPECIFICATION Spec\nCONSTANTS\n  Conns <- MCConns\n  Entries <- MCEntries\n  Chans <- MCChans\n  Matches <- MCMatches\n"
              "  MaxPub = %d\n  MaxOps = %d\n  Reference = %s\nINVARIANTS ExactlyOnceInOrder SameMessages NeverAhead\nCHECK_DEADLOCK FALSE\n")
+MC_REPL_CFG = ("SPECIFICATION Spec\nCONSTANTS\n  Design = \"%s\"\n  LocalWrites = %s\n  MaxId = %d\n  MaxEnv = %d\n  Dbs = %s\n"
+               "INVARIANTS %s\nPROPERTIES PropOnlyByLog PropAppendOnly\nCHECK_DEADLOCK FALSE\n")
+REPL_INV_ALL = "InvTypeOK InvIsReplay InvAgreement InvAgreementStrict InvReadYourWrites InvHanded InvConverged"
+REPL_INV_CODE = "InvTypeOK InvIsReplay InvAgreement InvReadYourWrites InvHanded"
 EV_POLICIES = ["noeviction", "allkeys-lru", "allkeys-lfu", "volatile-lru", "volatile-lfu", "allkeys-random", "volatile-random"]
 MC_EV_CFG = ("SPECIFICATION Spec\nCONSTANTS\n  Keys = {\"a\", \"b\", \"c\"}\n  Sizes = {1, 2}\n  Max = 4\n  Policy = \"%s\"\n  MaxSteps = %d\n"
              "INVARIANT GoneCompletely\nPROPERTIES OnlyWhenOver FromCandidates InOrder StopWhenUnder NoEvictionRefuses\nCHECK_DEADLOCK FALSE\n")
@@ -334,6 +338,34 @@ CHECKS = {
         assumptions=TRUSTED + ["gobwas/glob is trusted: channel names and patterns come from a fixed universe whose match relation is "
                                "tabulated in Trace_PubSub.tla", "the embedded-API subscriber is not exercised"],
         count_keys=("histories", "pub", "messages", "sub", "unsub", "query", "forced_reverse_bursts"), deviation_consts=True),
+    "C07": TraceModelCheck(
+        jobs={"quick": [["repl", "-n", "7", "-len", "22"], ["repl", "-n", "7", "-len", "22", "-skew"]],
+              "thorough": [["repl", "-n", "14", "-len", "30"] + (["-skew"] if i % 2 else []) for i in range(12)]},
+        trace_spec="Trace_Repl",
+        models={"quick": [("MC_Repl", MC_REPL_CFG % ("ideal", "FALSE", 2, 2, "{0}", REPL_INV_ALL)),
+                          ("MC_Repl", MC_REPL_CFG % ("code", "FALSE", 2, 2, "{0}", REPL_INV_CODE))],
+                "thorough": [("MC_Repl", MC_REPL_CFG % ("ideal", "FALSE", 2, 2, "{0, 1}", REPL_INV_ALL)),
+                             ("MC_Repl", MC_REPL_CFG % ("code", "FALSE", 2, 2, "{0, 1}", REPL_INV_CODE)),
+                             ("MC_Repl", MC_REPL_CFG % ("ideal", "FALSE", 3, 1, "{0}", REPL_INV_ALL))]},
+        expect_model_violation=[
+            ("MC_Repl", MC_REPL_CFG % ("code", "FALSE", 2, 2, "{0}", "InvAgreementStrict"),
+             "Repl.tla with Design = \"code\" (the raw command is logged; every node resolves relative expiries and random pops on "
+             "its own) violates AgreementStrict, as the open findings ReplApplyClock and ReplRandomPop record"),
+            ("MC_Repl", MC_REPL_CFG % ("ideal", "TRUE", 2, 1, "{0}", "InvIsReplay"),
+             "Repl.tla with LocalWrites = TRUE (a follower executes a client write on its own dataset) violates IsReplay / OnlyByLog")],
+        rule="one event = one client command (or sampler run, join, leadership transfer, node stop, snapshot install) on a real raft "
+             "cluster of 3-4 in-process nodes on loopback: the entry node (leader, refusing follower, forwarding follower), the role the "
+             "code gave the command, the reply, every node's clock, the number of log entries every node's state machine applied and "
+             "every node's dataset in every database once replication quiesced; judged by Trace_Repl.tla composing the step operators "
+             "of Repl.tla with Exec as the command semantics",
+        assumptions=TRUSTED + ["hashicorp/raft and hashicorp/memberlist are trusted (log matching, commitment, election, gossip delivery): "
+                               "the model takes the single committed log they provide as given",
+                               "nodes run in one process on loopback with the in-memory raft stores; process restarts from a boltdb log are "
+                               "not exercised (the raft instance cannot be closed through the public API)",
+                               "quiescence is detected through the fsm.apply/fsm.applied, gossip.forward and raft.enqueue.delete points"],
+        count_keys=("programs", "events", "role_leader", "role_forward", "role_reject", "role_local", "samples_run", "join", "transfer",
+                    "stop", "restore"),
+        deviation_consts=True, parts=4, job_workers=4),
     "C08": TraceModelCheck(
         jobs={"quick": [["evict", "-n", "10", "-len", "30"]], "thorough": [["evict", "-n", "80", "-len", "40"]]},
         trace_spec="Trace_Evict",
@@ -567,6 +599,26 @@ META = {
         "note": "Trusted: TLC, harness, glob library, the quiescence counter fed by the verif points. Open findings PubSubOrder "
                 "(deterministic witness forced through the ps.deliver point) and PubSubCount.",
         "technique": "TLA+ pub/sub model checked with TLC + trace validation of recorded subscription/delivery histories",
+        "engine": "trace-model",
+    },
+    "C07": {
+        "level": "TLC checks, on every interleaving of client writes at the leader / a forwarding follower / a refusing follower, gossip "
+                 "delivery, per-node apply, acknowledgement, clock ticks, expiry deletions, leadership transfer, join, stop and snapshot "
+                 "install of spec/Repl.tla (3 nodes, small abstract write algebra): IsReplay (a node's dataset is the replay of the log "
+                 "prefix it applied), Agreement / AgreementStrict / Converged (equal prefix - equal dataset in every database), "
+                 "ReadYourWrites (an acknowledged write is applied on the acknowledging leader), Handed (a forwarded write is in flight "
+                 "or logged, never twice), OnlyByLog (a dataset changes only by applying the next log entry: no node executes a client "
+                 "write on its own) and AppendOnly; and shows that the implementation-shaped design (raw command logged, each node "
+                 "resolves clock and randomness) violates AgreementStrict.  Trace validation (Trace_Repl.tla) of histories recorded from "
+                 "real 3-4 node raft clusters: the role the code gave each command equals Repl!Role, every node applied exactly the "
+                 "entries the model appended, every node's dataset equals ApplyOne (= Exec under that node's clock and choice) of its "
+                 "previous dataset, the leader's reply is the model's, reads on any node see the replicated state, and after every "
+                 "event all nodes hold identical datasets in every database except on keys explained by the open findings.",
+        "design_ref": "DESIGN.md §5 C07",
+        "note": "Trusted: TLC, harness, hashicorp/raft and memberlist, quiescence detection through verif points. Open findings "
+                "ReplRandomPop, ReplApplyClock, PersistJSONTypes (raft snapshot restore, incl. process death on list values). "
+                "Restart of a node from its on-disk raft log and crash of the leader mid-write are not exercised.",
+        "technique": "TLA+ replication model checked with TLC + trace validation of histories recorded from real in-process raft clusters",
         "engine": "trace-model",
     },
     "C08": {
